@@ -103,6 +103,9 @@ def run(module, cfg=None, *, env=None, workers=1, timeout=900, simulate=None, de
         m = re.match(r'^Error: Temporal properties were violated', line)
         if m:
             r.violated.append('TEMPORAL'); continue
+        m = re.match(r'^Error: Temporal property (\S+) was violated', line)
+        if m:
+            r.violated.append(m.group(1)); continue
         if line.startswith('Error:') or 'Assumption' in line and 'is false' in line:
             r.errors.append(line)
             continue
